@@ -142,36 +142,50 @@ theorem fresh_sync (durs : List Nat) (num den : Nat) (loops : Option Nat) (start
   rw [hstop]
   simp [startPlay, hs]
 
+theorem playNew_good (c : Option (Nat × Option Nat × Nat)) (s : KS) (durs : List Nat) (num den : Nat) (loops : Option Nat)
+    (start : Int) (running manual : Bool) (sync t : Nat) (h : Good s.insts) :
+    Good (playNew c s durs num den loops start running manual sync t).1.insts := by
+  have hf : Show.Inv (Show.step {} (.play durs num den loops start running manual sync t)).1 := step_inv _ _ init_inv
+  simp only [playNew]
+  cases hl : s.insts with
+  | nil => exact (good_cons _ _).mpr ⟨hf, (by intro hh; cases hh), fun _ => by intro y hy; simp at hy, trivial⟩
+  | cons x rest =>
+    rw [hl] at h
+    simp only
+    by_cases hs : x.rs.stopped = true
+    · rw [if_pos hs]
+      refine (good_cons _ _).mpr ⟨hf, (by intro hh; cases hh), fun _ => ?_, h⟩
+      exact (allStopped_cons _ _).mpr ⟨hs, (good_stopped_head x rest h hs).2⟩
+    · rw [if_neg hs]
+      by_cases hsync : sync ≠ 0
+      · rw [if_pos hsync]
+        have ff := fresh_sync durs num den loops start running manual sync t hsync
+        exact (good_cons _ _).mpr ⟨hf, fun _ => ⟨ff.1, ff.2, by simp, by simp⟩, (by intro hh; cases hh), h⟩
+      · rw [if_neg hsync]
+        have := stopFrom_good (x :: rest) h
+        exact (good_cons _ _).mpr ⟨hf, (by intro hh; cases hh), fun _ => this.2.1, this.1⟩
+
+theorem reqStep_good (s : KS) (op : Show.Op) (h : Good s.insts) : Good (reqStep s op).1.insts := by
+  simp only [reqStep]
+  by_cases hr : isReq op = true
+  · rw [if_pos hr]; exact (stepAt_good _ op (isReq_notPlay op hr) s.insts h).1
+  · rw [if_neg hr]; exact h
+
 theorem step_good (s : KS) (o : KOp) (h : Good s.insts) : Good (step s o).1.insts := by
   cases o with
-  | play durs num den loops start running manual sync t =>
-    have hf : Show.Inv (Show.step {} (.play durs num den loops start running manual sync t)).1 := step_inv _ _ init_inv
-    simp only [step]
-    cases hl : s.insts with
-    | nil => exact (good_cons _ _).mpr ⟨hf, (by intro hh; cases hh), fun _ => by intro y hy; simp at hy, trivial⟩
-    | cons x rest =>
-      rw [hl] at h
-      simp only
-      by_cases hs : x.rs.stopped = true
-      · rw [if_pos hs]
-        refine (good_cons _ _).mpr ⟨hf, (by intro hh; cases hh), fun _ => ?_, h⟩
-        exact (allStopped_cons _ _).mpr ⟨hs, (good_stopped_head x rest h hs).2⟩
-      · rw [if_neg hs]
-        by_cases hsync : sync ≠ 0
-        · rw [if_pos hsync]
-          have ff := fresh_sync durs num den loops start running manual sync t hsync
-          exact (good_cons _ _).mpr ⟨hf, fun _ => ⟨ff.1, ff.2, by simp, by simp⟩, (by intro hh; cases hh), h⟩
-        · rw [if_neg hsync]
-          have := stopFrom_good (x :: rest) h
-          exact (good_cons _ _).mpr ⟨hf, (by intro hh; cases hh), fun _ => this.2.1, this.1⟩
-  | req op =>
-    simp only [step]
-    by_cases hr : isReq op = true
-    · rw [if_pos hr]; exact (stepAt_good _ op (isReq_notPlay op hr) s.insts h).1
-    · rw [if_neg hr]; exact h
+  | play durs num den loops start running manual sync t => exact playNew_good _ s _ _ _ _ _ _ _ _ _ h
+  | req op => exact reqStep_good s op h
   | fire i t =>
     simp only [step]
     exact (stepAt_good i (.fire t) rfl s.insts h).1
+  | playc cid durs num den loops start running manual sync t =>
+    simp only [step]
+    split
+    · exact playNew_good _ s _ _ _ _ _ _ _ _ _ h
+    · split
+      · exact h
+      · exact reqStep_good s _ h
+      · exact playNew_good _ s _ _ _ _ _ _ _ _ _ h
 
 theorem run_good (ops : List KOp) : ∀ s, Good s.insts → Good (run s ops).1.insts := by
   induction ops with
@@ -317,37 +331,51 @@ theorem stepAt_known (i : Nat) (op : Show.Op) : ∀ (l : List Inst), KnownAll l 
       · exact h _ List.mem_cons_self
       · exact ih ht y hy
 
-theorem step_known (s : KS) (o : KOp) (h : KnownAll s.insts) : KnownAll (step s o).1.insts := by
-  cases o with
-  | play durs num den loops start running manual sync t =>
-    have hf : KnownInv (Show.step {} (.play durs num den loops start running manual sync t)).1 :=
-      step_knownInv _ _ (Or.inl rfl)
-    simp only [step]
-    cases hl : s.insts with
-    | nil => intro y hy; simp only [List.mem_singleton] at hy; subst hy; exact hf
-    | cons x rest =>
-      rw [hl] at h
-      simp only
-      split
+theorem playNew_known (c : Option (Nat × Option Nat × Nat)) (s : KS) (durs : List Nat) (num den : Nat) (loops : Option Nat)
+    (start : Int) (running manual : Bool) (sync t : Nat) (h : KnownAll s.insts) :
+    KnownAll (playNew c s durs num den loops start running manual sync t).1.insts := by
+  have hf : KnownInv (Show.step {} (.play durs num den loops start running manual sync t)).1 :=
+    step_knownInv _ _ (Or.inl rfl)
+  simp only [playNew]
+  cases hl : s.insts with
+  | nil => intro y hy; simp only [List.mem_singleton] at hy; subst hy; exact hf
+  | cons x rest =>
+    rw [hl] at h
+    simp only
+    split
+    · intro y hy
+      rcases List.mem_cons.mp hy with rfl | hy
+      · exact hf
+      · exact h y hy
+    · split
       · intro y hy
         rcases List.mem_cons.mp hy with rfl | hy
         · exact hf
         · exact h y hy
-      · split
-        · intro y hy
-          rcases List.mem_cons.mp hy with rfl | hy
-          · exact hf
-          · exact h y hy
-        · intro y hy
-          rcases List.mem_cons.mp hy with rfl | hy
-          · exact hf
-          · exact stopFrom_known _ h y hy
-  | req op =>
+      · intro y hy
+        rcases List.mem_cons.mp hy with rfl | hy
+        · exact hf
+        · exact stopFrom_known _ h y hy
+
+theorem reqStep_known (s : KS) (op : Show.Op) (h : KnownAll s.insts) : KnownAll (reqStep s op).1.insts := by
+  simp only [reqStep]
+  split
+  · exact stepAt_known _ op s.insts h
+  · exact h
+
+theorem step_known (s : KS) (o : KOp) (h : KnownAll s.insts) : KnownAll (step s o).1.insts := by
+  cases o with
+  | play durs num den loops start running manual sync t => exact playNew_known _ s _ _ _ _ _ _ _ _ _ h
+  | req op => exact reqStep_known s op h
+  | fire i t => simp only [step]; exact stepAt_known i _ s.insts h
+  | playc cid durs num den loops start running manual sync t =>
     simp only [step]
     split
-    · exact stepAt_known _ op s.insts h
-    · exact h
-  | fire i t => simp only [step]; exact stepAt_known i _ s.insts h
+    · exact playNew_known _ s _ _ _ _ _ _ _ _ _ h
+    · split
+      · exact h
+      · exact reqStep_known s _ h
+      · exact playNew_known _ s _ _ _ _ _ _ _ _ _ h
 
 theorem run_known (ops : List KOp) : ∀ s, KnownAll s.insts → KnownAll (run s ops).1.insts := by
   induction ops with
